@@ -820,6 +820,12 @@ pub fn ins(s: &Ins) -> InsertStatement {
     }
     q.into_table(a(&s.table));
     q.columns(s.cols.iter().map(|c| a(c)));
+    // `or_default_values()` is a fallback for a statement that ends up without rows: next to real rows or a
+    // SELECT source it changes nothing, whether it is called before or after them
+    let fallback = if matches!(&s.source, InsSource::Default(_)) { 0 } else { route(5) };
+    if fallback == 1 {
+        q.or_default_values();
+    }
     match &s.source {
         InsSource::Values(rows) => {
             let r3 = route(4);
@@ -859,6 +865,9 @@ pub fn ins(s: &Ins) -> InsertStatement {
                 q.values_panic(Vec::<SimpleExpr>::new());
             }
         }
+    }
+    if fallback == 2 {
+        q.or_default_values_many(2);
     }
     if let Some(c) = &s.conflict {
         q.on_conflict(conflict(c));
